@@ -1020,7 +1020,7 @@ def as_map(v):
 
 def seq_base(v):
     """Base sequence of a position-preserving (unfiltered, one-to-one) view, else None."""
-    if v[0] == "phi":
+    if v[0] in ("phi", "ifexp"):
         a, b = seq_base(v[2]), seq_base(v[3])
         return a if a == b else None
     if v[0] in ("comp", "copy"):
@@ -1114,7 +1114,7 @@ def simp(v):
             return ("idx", m[2], v[2])
     if k == "sub" and v[2][0] == "idx" and v[2][1] == v[1]:
         return ("elem", v[1], v[2][2])
-    if k == "elem" and v[1][0] == "phi":
+    if k == "elem" and v[1][0] in ("phi", "ifexp"):
         return ("phi", v[1][1], simp(("elem", v[1][2], v[2])), simp(("elem", v[1][3], v[2])))
     if k == "elem":
         seq = v[1]
